@@ -44,6 +44,16 @@ CHECKS = {
     text="2000 (quick) / 20000 (thorough) enums over the accepted expression grammar (+ - * / parentheses, unary sign, literals incl. leading-zero octal, references to earlier members, adjacent signs), 1-6 members with random explicit/implicit masks, plain / enum class / enum struct at library, namespace and class scope are run through Shroud; g++, gcc and gfortran then evaluate the original and the generated constants and every member is compared.",
     note="Trusted: gcc/g++/gfortran 12 constant evaluation; enumerators matched by position inside each emitted enum (names are C08's business). Values kept inside int, divisors non-zero.",
     design="DESIGN.md §2 C11"),
+ "C09": dict(
+    technique="g++ static_assert(std::is_same<...>) between the original declaration text and Shroud's C++/C renderings of the parsed declaration; online monitor on check_decl that re-parses Shroud's own rendering in the same namespace",
+    text="3000 (quick) / 20000 (thorough) declarations from the declarator grammar (exhaustive cv x base x pointer-chain core, sampled functions, function pointers, arrays, vectors, qualified names, attributes, defaults) plus every declaration parsed while generating the 50 corpus configurations: for each text accepted by both Shroud and g++, the compiler decides that gen_arg_as_cxx (whole declaration, each parameter, the result variable) denotes the same type and gen_arg_as_c the documented C counterpart; gen_decl is re-parsed and the parse trees compared.",
+    note="Trusted: g++ 12 -std=c++11; vf_c metafunction for the C counterpart (native/enum/typedef by value, std::string/class/vector behind a pointer or reference only). Whole function types with std::vector parameters are excluded (never emitted as C++).",
+    design="DESIGN.md §2 C09"),
+ "C10": dict(
+    technique="string helpers extracted at run time from the working tree, compiled unchanged as C and C++ with ASan+UBSan and called exhaustively on exact-size heap blocks; results compared with an executable specification (level 1); end-to-end string traffic through generated wrappers (level 2, execution engine)",
+    text="ShroudLenTrim, StrCopy, StrBlankFill, StrAlloc/Free, StrArrayAlloc/Free (C and C++ text) and ShroudStrToArray + CopyStringAndFree (C++) are called for all source lengths 0..N x destination lengths 0..N x trimmed lengths x nsrc=-1 x NULL source x all contents over {'a',' '} up to length 6 (N=10 quick, 14 thorough). Held = no sanitizer report, no guard violation, every result equal to the specification.",
+    note="Trusted: gcc 12 ASan/UBSan; the specification in native/c10_driver.c. nonnull-attribute check disabled (zero-length copies from NULL read nothing).",
+    design="DESIGN.md §2 C10"),
 }
 
 NOT_APPLICABLE = []
